@@ -59,6 +59,12 @@ unrolled into keywords; a header map built in place in read_csv is recognised; N
 spellings of "missing", test after strip()) is refuted; work-list tree walks (W.pop()/popleft() with W.extend()/extendleft()) are
 judged: same side without reversed(..) -> siblings reversed (refuted), with reversed(..) -> pre-order, other combinations undecided.
 
+Round 9 additions: parent_id / predecessor_ids assigned to the new TaskRaw AFTER construction (`if parent: raw.parent_id =
+parent.id`, `raw.predecessor_ids = <list filled by one loop>`) are followed (_post_ctor_store) instead of being reported as not
+recorded; a constructor keyword `<constant> if C else x.field` is refuted when C says nothing about x.field (the value is
+dropped for some objects), accepted when C only says the field is absent; joining predecessor ids with a function parameter
+(e.g. the csv delimiter) is refuted - the property fixes ';'.
+
 Not decided: the csv module's quoting (trusted stdlib, default dialect only), a hand-rolled date parser with its own year
 pivot (undecided), custom attribute
 names that collide with Task members, tasks whose parent_id is dangling, numeric behaviour of float()/str().
@@ -2044,7 +2050,7 @@ def _hop_kw(o, fn, call, field, value, srcvar, what, ctx=None, body=None):
                 continue
             facts, unknown = sym_facts(conds, want)
             if isinstance(leaf, ast.Constant) and leaf.value in (None, '') and not unknown and facts & {'none', 'falsy', 'empty'} \
-                    and FIELD_KIND.get(field) in ('text', 'date') | ({'float', 'optint'} if 'none' in facts else set()):
+                    and FIELD_KIND.get(field) in ({'text', 'date'} | ({'float', 'optint'} if 'none' in facts else set())):
                 continue
             ok = False
             if isinstance(leaf, ast.Constant) and unknown and not any(_mentions(t, want) for t, _p in unknown):
